@@ -61,6 +61,24 @@ def _simple(e):
     return e.get("k") in ("Path", "Lit")
 
 
+def _used_once(body, pid):
+    n = 0
+    for x in walk(body):
+        if x.get("k") == "Path" and x.get("res", {}).get("r") == "local" and x["res"].get("id") == pid:
+            n += 1
+            if n > 1:
+                return False
+    # not under a closure or loop (which could evaluate it more than once or later)
+    def under_repeat(node, inside):
+        if node.get("k") == "Path" and node.get("res", {}).get("r") == "local" and node["res"].get("id") == pid:
+            return inside
+        for c in children(node):
+            if under_repeat(c, inside or node.get("k") in ("Closure", "Loop")):
+                return True
+        return False
+    return n == 1 and not under_repeat(body, False)
+
+
 def _subst(node, idsub, off, tag, file):
     """deep copy with binding ids shifted by `off`, parameter uses replaced (idsub: id -> expression), closure defs tagged"""
     if isinstance(node, list):
@@ -97,7 +115,10 @@ def _inline_hir_call(caller, call, helper, off, tag):
     idsub = {}
     lets = []
     for p, a in zip(params, args):
-        if p.get("k") == "PBind" and not p.get("sub") and (p.get("name") == "self" or _simple(a)) and "Mut)" not in (p.get("mode") or "") :
+        if p.get("k") == "PBind" and not p.get("sub") and "Mut)" not in (p.get("mode") or "") and \
+                (p.get("name") == "self" or _simple(a) or _used_once(helper["body"], p["id"])):
+            # (a by-value parameter that the helper uses exactly once takes the argument expression in its place: the constructor
+            # helpers this is for only move their arguments into a struct literal)
             idsub[p["id"]] = a
         else:
             lets.append((p, a))
